@@ -58,6 +58,35 @@ class Harness:
     policy = COARSE
     expand_limit = None  # at most this many states expanded per BFS level
     edgewise = True  # detailed balance / connectivity layer applies
+    warm = False  # criteria/operation objects have already served another simulation at other conditions
+
+    def prepare(self, sysm, state):
+        """Put the system into ``state``.  With ``warm`` the criteria and operation objects of
+        the explored simulation are the ones that have already served ANOTHER simulation of the
+        same table at another temperature (and pressure / chemical potential) for three steps -
+        the user shares component instances between simulations: anything they cached during
+        that earlier use must not leak into the kernel."""
+        if self.warm:
+            from qv.systems import build, flatten_moves
+
+            spec2 = dict(self.spec)
+            spec2["T"] = 3.7 * self.spec.get("T", 300.0)
+            if "P" in spec2:
+                spec2["P"] = 2.5 * spec2["P"] + 0.001
+            if "mu" in spec2:
+                spec2["mu"] = spec2["mu"] + 0.05
+            spec2["seed"] = 20260927
+            donor = build(spec2)
+            self.set_state(donor, self.state0)
+            donor.mc.run(3)
+            for name, st in sysm.mc.moves.items():
+                dst = donor.mc.moves[name]
+                st.criteria = dst.criteria
+                for leaf, dleaf in zip(flatten_moves(st.move), flatten_moves(dst.move)):
+                    if hasattr(leaf, "operation"):
+                        leaf.operation = dleaf.operation
+            donor.close()
+        self.set_state(sysm, state)
 
     def key(self, s):
         raise NotImplementedError
@@ -197,7 +226,7 @@ class GCH(Harness):
 
     tol = 1e-7
 
-    def __init__(self, nmax=2, T=300.0, lam=1.5, with_disp=False, sites=3):
+    def __init__(self, nmax=2, T=300.0, lam=1.5, with_disp=False, sites=3, check=False):
         self.nmax, self.T, self.lam = nmax, T, lam
         if sites == 2:  # 8 insertion sites instead of 27
             self.policy = {**COARSE, "uniform_q": (0.25, 0.75)}
@@ -209,6 +238,13 @@ class GCH(Harness):
         self.mu = kB * T * math.log(lam * lam_cubed(self.mass, T) / self.V)
         table = [["e", "E_trans"]] + ([["d", "D_box"]] if with_disp else [])
         self.spec = dict(ens="GrandCanonical", atoms="A0", table=table, T=T, mu=self.mu, calc="zero")
+        if check:
+            # geometric checks answered by the explorer (max_attempts=2): vetoed attempts are
+            # self-loops, so the edge-wise layer (which needs the lattice target) does not apply
+            self.spec["check"] = True
+            self.name += "/vetoed-attempts"
+            self.edgewise = False
+            self.expand_limit = 6
         self.state0 = np.zeros((0, 3))
         self.with_disp = with_disp
         if with_disp:
@@ -312,7 +348,7 @@ def enumerate_kernel(h: Harness, state, policy, depth=1):
     trials = [(weight, segkey, x, y, t, verdict, post, name)]."""
 
     def setup(sysm):
-        h.set_state(sysm, state)
+        h.prepare(sysm, state)
 
     out = []
     st = Stats()
@@ -429,15 +465,17 @@ def explore_harness(arg):
         for want in (True, False, None):
             for rec in first:
                 if rec and "error" not in rec[0] and rec[0]["verdict"] is want:
-                    kk = (want, h.key(rec[0]["post"]))
-                    if kk not in seen_rep and sum(1 for r_ in reps if r_[0]["verdict"] is want) < arg.get("markov_reps", 3):
+                    vetoed = any(p_[0] == "user" and p_[2] == 1 for p_ in rec[0]["seg"])  # a first trial with refused attempts is its own kind
+                    kk = (want, h.key(rec[0]["post"]), vetoed)
+                    if kk not in seen_rep and sum(1 for r_ in reps if r_[0]["verdict"] is want and r_[0].get("vetoed") == vetoed) < arg.get("markov_reps", 3):
+                        rec[0]["vetoed"] = vetoed
                         seen_rep.add(kk)
                         reps.append(rec)
         for rec0 in reps:
             prefix = rec0[0]["choices"]
 
             def setup(sysm, st=h.state0):
-                h.set_state(sysm, st)
+                h.prepare(sysm, st)
 
             def run2(ch):
                 sysm, trials = execute(h.spec, ch, 2, policy, setup=setup)
@@ -546,6 +584,9 @@ def make_harness(arg):
     h = _make_harness(arg)
     if "expand_limit" in arg:
         h.expand_limit = arg["expand_limit"]
+    if arg.get("warm"):
+        h.warm = True
+        h.name += "/components-served-another-simulation"
     return h
 
 
@@ -558,7 +599,7 @@ def _make_harness(arg):
     if k == "npt":
         return NPTH(arg["n"], kmax=arg.get("kmax", 4), with_disp=arg.get("with_disp", False))
     if k == "muvt":
-        return GCH(arg.get("nmax", 2), with_disp=arg.get("with_disp", False), sites=arg.get("sites", 3))
+        return GCH(arg.get("nmax", 2), with_disp=arg.get("with_disp", False), sites=arg.get("sites", 3), check=arg.get("check", False))
     if k == "muvt-mol":
         return GCMolH(sites=arg.get("sites", 2))
     raise ValueError(k)
@@ -664,6 +705,13 @@ def harness_args(tier):
     a.append({"kind": "npt", "n": 3, "kmax": 3})
     a.append({"kind": "dipole", "x": 0.5})
     a.append({"kind": "harmonic", "n": 2, "op": "box", "depth": 1, "markov_reps": 1})
+    # criteria and operation objects shared with a simulation that ran at another temperature / pressure / chemical potential
+    a.append({"kind": "muvt", "nmax": 2, "sites": 2, "warm": True, "markov_reps": 1})
+    a.append({"kind": "muvt-mol", "markov_reps": 1, "warm": True})
+    a.append({"kind": "npt", "n": 1, "warm": True, "markov_reps": 1})
+    a.append({"kind": "harmonic", "n": 1, "op": "box", "depth": 1, "warm": True, "markov_reps": 1})
+    a.append({"kind": "dipole", "x": 2.0, "warm": True, "markov_reps": 1})
+    a.append({"kind": "muvt", "nmax": 1, "sites": 2, "check": True, "markov_reps": 1})
     if tier == "thorough":
         a.append({"kind": "harmonic", "n": 1, "op": "sphere", "depth": 2})
         a.append({"kind": "harmonic", "n": 1, "op": "ballbox", "depth": 1, "markov_reps": 1, "expand_limit": 6})
